@@ -9,7 +9,7 @@
    can still be waiting: request ids in the handler map, in the task channel, and of senders that
    hold a channel slot ([c_reserved]). *)
 From SV Require Import Base.Prelude Base.Bytes Model.ConnFail Proofs.ConnFail_proofs.
-From SV Require Import Model.Retry Proofs.ConnFail_retry Proofs.ConnFail_accept Proofs.ConnFail_phase.
+From SV Require Import Model.Retry Proofs.ConnFail_retry Proofs.ConnFail_accept Proofs.ConnFail_phase Proofs.C10_d4_proofs.
 Open Scope N_scope.
 
 (* For EVERY schedule: once a fault label (end of stream at any byte offset, bad header, frame
@@ -303,6 +303,46 @@ Proof. exact sent_table_sound. Qed.
 Theorem C10_echo_of_sound : forall prefix body m p, echo_of prefix body = Some (m, p) -> echo_shape prefix body m p.
 Proof. exact echo_of_sound. Qed.
 
+(* ---- deepening round 4 ---- *)
+(* The error has been handed to the pool EXACTLY when the router has finished: in every reachable state
+   c_err_sent <-> Broken (before: only shown at the end of the finishing schedule). *)
+Theorem C10_err_sent_iff_broken : forall ctl st, reachable ctl st ->
+  (c_err_sent st = true <-> exists e, c_status st = Broken e).
+Proof. exact err_sent_iff_broken. Qed.
+
+(* Frame: no step of anybody touches c_err_sent or enters Broken -- except the router's last step, taken
+   in Draining with an empty channel and no sender holding a slot, which does both at once. *)
+Theorem C10_err_sent_frame : forall st l st', step st l = Some st' ->
+  (c_err_sent st' = c_err_sent st /\ forall e, c_status st' = Broken e -> c_status st = Broken e) \/
+  (l = TdStep /\ exists e, c_status st = Draining e /\ c_queue st = [] /\ c_reserved st = [] /\
+     c_status st' = Broken e /\ c_err_sent st' = true).
+Proof. exact err_sent_frame. Qed.
+
+(* [skipped_labels] / [run_lenient] (extracted; the driver demands skipped = 0 before `ok`).  Completeness:
+   a schedule that IS a run of the model has no skipped label and the lenient replay yields its final state. *)
+Theorem C10_run_has_no_skipped : forall ls st st', run st ls = Some st' ->
+  skipped_labels st ls = O /\ run_lenient st ls = st'.
+Proof. exact run_skipped_zero. Qed.
+
+(* Soundness where nothing is tolerated: if the replay ends in an open connection, zero skipped labels and no
+   KaTimeout label (no client-side close in the trace) mean the schedule is a run, label for label.  (In a
+   state that is not open the tolerated skips -- writer / keepaliver steps of requests read after the
+   breaking bytes -- are real omissions; see C10_ex_skipped.) *)
+Theorem C10_skipped_zero_open_is_run : forall ls st, skipped_labels st ls = O ->
+  is_open (run_lenient st ls) = true -> ~ In KaTimeout ls -> run st ls = Some (run_lenient st ls).
+Proof. exact skipped_zero_open. Qed.
+
+(* In general the replay's result is reached by exactly the enabled labels, in order ([taken]). *)
+Theorem C10_lenient_taken : forall ls st, run st (taken st ls) = Some (run_lenient st ls).
+Proof. exact lenient_taken. Qed.
+
+(* [pool_accept] (extracted; the driver's pool-level verdict), declaratively on the recorded events: in an
+   accepted event list, once a replacement connection has appeared (EvAdd) after connection c broke, no request
+   arrives on c any more.  (Accepting and rejecting instances: C10_ex_pool_accept.) *)
+Theorem C10_pool_accept_sound : forall es, pool_accept es = true ->
+  forall l1 c l2 c' l3, es = l1 ++ EvBreak c :: l2 ++ EvAdd c' :: l3 -> ~ In (EvGet c) l3.
+Proof. exact pool_accept_sound. Qed.
+
 (* ---- non-vacuity: concrete schedules ---------------------------------------------------- *)
 Definition ex_hdr (stream len : N) : list N := [132; 0; 0; stream; 8; 0; 0; 0; len].
 
@@ -494,6 +534,39 @@ Example C10_ex_phases :
   end.
 Proof. vm_compute. repeat split; reflexivity. Qed.
 
+(* round 4: c_err_sent flips with the router's last step and only there (both disjuncts of the frame) *)
+Example C10_ex_err_sent :
+  match run (conn_init false) [Reserve 1; Push 1; WriterTake (Some 0); Reserve 2; Eof; TdStep; TdStep] with
+  | Some st => c_status st = Draining EHeaderIo /\ c_err_sent st = false /\
+      match run st [Push 2; TdStep] with
+      | Some st1 => c_status st1 = Draining EHeaderIo /\ c_err_sent st1 = false /\ c_queue st1 = [] /\ c_reserved st1 = [] /\
+          match step st1 TdStep with
+          | Some st2 => c_status st2 = Broken EHeaderIo /\ c_err_sent st2 = true /\
+              match step st2 (Reserve 3) with Some st3 => c_err_sent st3 = true /\ c_status st3 = Broken EHeaderIo | None => False end
+          | None => False
+          end
+      | None => False
+      end
+  | None => False
+  end.
+Proof. vm_compute. repeat split; reflexivity. Qed.
+
+(* round 4: hypotheses of C10_skipped_zero_open_is_run met by a healthy trace; with a client-side close the
+   KaTimeout label is a tolerated skip (skipped = 0, connection open) and the schedule is NOT a run: the
+   premise ~ In KaTimeout is needed; [taken] drops exactly that label *)
+Example C10_ex_skipped_run :
+  let ls := labels_of None [TIn 0 2 false; TOut (ex_frame 0 [1]); TIn 1 3 true; TOut (ex_frame 1 [])] in
+  skipped_labels (conn_init false) ls = 0%nat /\ is_open (run_lenient (conn_init false) ls) = true /\
+  ~ In KaTimeout ls /\ run (conn_init false) ls = Some (run_lenient (conn_init false) ls) /\
+  let lc := labels_of None [TIn 0 2 false; TOut (ex_frame 0 [1]); TClose] in
+  skipped_labels (conn_init false) lc = 0%nat /\ is_open (run_lenient (conn_init false) lc) = true /\
+  run (conn_init false) lc = None /\
+  taken (conn_init false) lc = [Reserve 2; Push 2; WriterTake (Some 0); Recv (ex_frame 0 [1])].
+Proof.
+  vm_compute. repeat split; try reflexivity.
+  intros H. repeat (destruct H as [H|H]; [discriminate|]). exact H.
+Qed.
+
 Print Assumptions C10_all_fail.
 Print Assumptions C10_framing.
 Print Assumptions C10_root_cause.
@@ -527,3 +600,9 @@ Print Assumptions C10_pool_never_again.
 Print Assumptions C10_pool_no_get_after_process.
 Print Assumptions C10_simulate_reachable.
 Print Assumptions C10_simulate_settled.
+Print Assumptions C10_err_sent_iff_broken.
+Print Assumptions C10_err_sent_frame.
+Print Assumptions C10_run_has_no_skipped.
+Print Assumptions C10_skipped_zero_open_is_run.
+Print Assumptions C10_lenient_taken.
+Print Assumptions C10_pool_accept_sound.
